@@ -33,7 +33,7 @@ fn info(tier: Tier) -> CheckInfo {
             if tier.is_quick() { 3 } else { 4 },
             "{8, 20}"
         ),
-        assumptions: vec!["loss-free network, 10 ms latency (slow-link part: 300..600 ms)".into(), "sizes above 20 are not explored (bucket overflow is C12's)".into()],
+        assumptions: vec!["loss-free network, 10 ms latency (slow-link part: 300..600 ms)".into(), "above 20 joiners only the connectivity verdict applies (full buckets are C12's)".into()],
     };
     ci.rule.push_str(" Added: Info accessors and to_bootstrap() compared with every node's state right after the joins and at the end; the library's own blocking Testnet::new(n) run inside the simulated world and judged the same way.");
     ci
